@@ -5,6 +5,8 @@ import (
 	"context"
 	"dsim/simos"
 	"fmt"
+	deprecatedbucketteer "github.com/rpcpool/yellowstone-faithful/deprecated/bucketteer"
+	"github.com/rpcpool/yellowstone-faithful/deprecated/compactindex"
 	"github.com/rpcpool/yellowstone-faithful/deprecated/compactindex36"
 	"os"
 	"path/filepath"
@@ -68,6 +70,74 @@ func c10setFromDir(b *builtWorld) (c10set, error) {
 		s.files[role] = m[0]
 	}
 	return s, nil
+}
+
+// writeLegacy writes the configuration with indexes.cid_to_offset (deprecated) in place of
+// cid_to_offset_and_size.
+func (s c10set) writeLegacy(path string) string {
+	var sb strings.Builder
+	fmt.Fprintf(&sb, "epoch: %d\nversion: 1\ndata:\n  car:\n    uri: '%s'\nindexes:\n", s.epoch, s.car)
+	for _, r := range c10roles {
+		p, ok := s.files[r]
+		if !ok {
+			continue
+		}
+		if r == "cid_to_offset_and_size" {
+			r = "cid_to_offset"
+		}
+		fmt.Fprintf(&sb, "  %s:\n    uri: '%s'\n", r, p)
+	}
+	os.WriteFile(path, []byte(sb.String()), 0o644)
+	return path
+}
+
+// c10legacySet derives from a genuine file set the one of a legacy configuration: a deprecated
+// cid-to-offset index (compactindex, 8-byte offsets) and a sig-exists file in the legacy format,
+// both built for world w with the deprecated writers.
+func c10legacySet(genuine c10set, w *world.World, dir string) (c10set, error) {
+	out := genuine.clone()
+	os.MkdirAll(dir, 0o755)
+	tmp := filepath.Join(dir, "tmp")
+	os.MkdirAll(tmp, 0o755)
+	b, err := compactindex.NewBuilder(tmp, uint(len(w.Objects)), uint64(len(w.CAR)))
+	if err != nil {
+		return out, err
+	}
+	defer b.Close()
+	for _, o := range w.Objects {
+		if err := b.Insert(o.Cid.Bytes(), o.Offset); err != nil {
+			return out, err
+		}
+	}
+	p := filepath.Join(dir, "cid-to-offset.old.index")
+	f, err := simos.Create(p)
+	if err != nil {
+		return out, err
+	}
+	if err := b.Seal(context.Background(), f); err != nil {
+		f.Close()
+		return out, err
+	}
+	if err := f.Close(); err != nil {
+		return out, err
+	}
+	out.files["cid_to_offset_and_size"] = p
+	sp := filepath.Join(dir, "sig-exists.old.index")
+	sw, err := deprecatedbucketteer.NewWriter(sp)
+	if err != nil {
+		return out, err
+	}
+	for _, tx := range w.Txs {
+		sw.Put(tx.Sig())
+	}
+	if _, err := sw.Seal(map[string]string{}); err != nil {
+		return out, err
+	}
+	if err := sw.Close(); err != nil {
+		return out, err
+	}
+	out.files["sig_exists"] = sp
+	return out, nil
 }
 
 // c10oldFormat builds a genuine slot-to-cid or sig-to-cid index of world w in the old file format
@@ -402,6 +472,34 @@ func scenarioC10(x *runner.X) {
 					ep.Close()
 					if x.Failf("oracle", "an epoch loads although its "+f.role+" index "+f.kind+" (next to an old-format "+oldRole+" file)", "config epoch %d root %s; %s <- %s", e1, w1.w.Root, f.role, filepath.Base(f.path)) {
 						return
+					}
+				}
+			}
+		}
+		// 2c. the legacy configuration (deprecated cid_to_offset index, which carries no identity, plus
+		// the legacy sig-exists format): the remaining indexes must still be checked against the
+		// configured epoch and against each other
+		if legacy, err := c10legacySet(s1, w1.w, filepath.Join(rebuilt, "legacy")); err != nil {
+			s.Fail("harness", "build the legacy index files", err.Error())
+		} else {
+			if ep, err := loadEpoch(legacy.writeLegacy(cfgPath)); err != nil {
+				x.Probe("c10.legacy-genuine-refused")
+			} else {
+				ep.Close()
+				x.Probe("c10.legacy-genuine-loaded")
+				for _, f := range ident {
+					if f.role == "cid_to_offset_and_size" || f.role == "sig_exists" {
+						continue
+					}
+					set := legacy.clone()
+					set.files[f.role] = f.path
+					x.Probe("c10.cases")
+					x.Fault("index-swap-legacy-config")
+					if ep, err := loadEpoch(set.writeLegacy(cfgPath)); err == nil {
+						ep.Close()
+						if x.Failf("oracle", "an epoch loads although its "+f.role+" index "+f.kind+" (legacy configuration)", "config epoch %d root %s; %s <- %s", e1, w1.w.Root, f.role, filepath.Base(f.path)) {
+							return
+						}
 					}
 				}
 			}
